@@ -17,6 +17,8 @@ class Renderer:
         self.P = P  # list of nodes, 1-based indices in fields
         self.use9 = use9 if use9 is not None else any(n["t"] in ("cs", "pipe") for n in P)
         self.in_cs = 0
+        self.in_quote = 0
+        self.decorate = None        # random.Random: vary the separators between list items (C15: blank lines, comments, continuations)
 
     def nd(self, i):
         return self.P[i - 1]
@@ -96,14 +98,20 @@ class Renderer:
             return ": $nope%d" % i
         if t == "fe":
             return ": ${nope%d:?}" % i
-        if t == "trapx":
-            return "trap %s EXIT" % sq(self.r(n["a"]))
-        if t == "trape":
-            return "trap %s ERR" % sq(self.r(n["a"]))
+        if t in ("trapx", "trape"):
+            self.in_quote += 1
+            body = self.r(n["a"])
+            self.in_quote -= 1
+            return "trap %s %s" % (sq(body), "EXIT" if t == "trapx" else "ERR")
         if t == "trapr":
             return "trap - EXIT" if n["n"] == 0 else "trap - ERR"
         if t == "seq":
-            return self.r(n["a"]) + "\n" + self.r(n["b"])
+            sep = "\n"
+            if self.decorate is not None and not self.in_quote:
+                # a leaf command may be continued onto an empty line; blank and comment lines may follow any command
+                leaf = self.nd(n["a"])["t"] in ("M", "X", "T", "L", "S")
+                sep = self.decorate.choice(["\n", "\n", "\n\n", "\n# comment\n", "\n  \n"] + ([" \\\n\n", " \\\n  \n"] if leaf else []))
+            return self.r(n["a"]) + sep + self.r(n["b"])
         if t in ("and", "or"):
             op = " && " if t == "and" else " || "
             return self.cmd(n["a"], "andor") + op + self.cmd(n["b"], "andor_right")
@@ -149,7 +157,10 @@ class Renderer:
         if t == "fn":
             return "f%d() {\n%s\n}\nf%d" % (i, self.r(n["a"]), i)
         if t == "eval":
-            return "eval " + sq(self.r(n["a"]))
+            self.in_quote += 1
+            body = self.r(n["a"])
+            self.in_quote -= 1
+            return "eval " + sq(body)
         if t == "cs":
             self.in_cs += 1
             body = self.r(n["a"])
